@@ -16,6 +16,10 @@ CLAIMED = {
             "Five structural clauses over the point-to-point channels: waiter-state transitions and transfer helpers only under the channel mutex; Timeout only behind a successful "
             "withdrawal; every payload write followed by a >=Release publish and every payload read preceded by a >=Acquire guard, with all ~200 sites on synchronisation fields at "
             "the required strength; batch errors carry the caller's items; single-endpoint handles are exclusive by type; the iterator given to resolve_run is bounded by the same `valid` count at all 5 sites. Multiset equality of sent/received values is not decided.", "§4 C01"),
+    "C02": ("who-may-call rule on the ends of the payload queues, edge-dominance of the chain dequeue by the reclaimed-empty edge, order-preserving-operation rule over batch containers",
+            "PARTIAL: three order-relevant shapes only — payload queues are FIFO-ended and recovered values re-enter at the head, the mpmc-unbounded chain is dequeued only after the "
+            "reclaimed queue was found empty, and the 49 batch bodies walk the caller's container front to back. Ring index arithmetic, ticket/tombstone order, chunk/slab "
+            "recycling, link order and every interleaving-dependent part of C02 are not decided.", "§9.2 C02"),
     "C03": ("edge-dominance of value-carrying commits by the admission predicate; must-held guard analysis; dominance order of payload read vs cursor/state writes in the lock-free rings",
             "Admission-gate shape at the 20 commit sites whose admission predicate is a call (mpsc-bounded credit, mpmc-bounded fullness under the lock, oneshot CAS, rendezvous pairing). "
             "In the three lock-free bounded rings a slot is handed back (cursor/state write) only after its payload read, and always with a >=Release write. "
@@ -59,7 +63,6 @@ CLAIMED = {
 }
 
 NOT_APPLICABLE = {
-    "C02": "FIFO order is a property of value histories (index arithmetic, link order, push_back vs push_front): no clause is visible in the shape of the code beyond the publication-order clauses already decided under C01/C07; claiming C02 through them would overstate (DESIGN §5).",
     "C14": "Quantifies over arbitrary admit/access/remove/evict call sequences against per-policy bookkeeping (segment sizes, ghost lists, sketch counters): runtime values, no common structural clause across eight deliberately different algorithms (DESIGN §5).",
     "C20": "Escaping round-trips for arbitrary Unicode, padding/truncation and roll/retention arithmetic are functions of input values and clock steps; the only structural fact (serde_json + one newline) constrains no realistic change (DESIGN §5).",
 }
